@@ -3,7 +3,7 @@ package main
 func init() { register("C02", checkC02) }
 
 func checkC02(r *Run) {
-	r.Explain = "Decides the second sentence of C02 structurally — the same (type, value) encodes identically through every entry point: A5 extracts, for every value type, the (encoder primitive, settings operands) tuple each front-end (Event, Context, Array methods and every arm of the Fields type switch, pointer arms matched to their value arms) passes the user's value to, and requires the tuples to agree; A6 the integer appenders of the JSON and CBOR encoders widen the logged value without loss (necessary for 'integers exactly over their full 8-64 bit ranges'), also under 386 sizes in the thorough tier; JSONARR the slice appenders of internal/json emit '[', one element primitive per element separated by exactly one ',', and ']' with the same element primitive and settings as the scalar appender; A1 no appender result is dropped."
+	r.Explain = "Decides the second sentence of C02 structurally — the same (type, value) encodes identically through every entry point: A5 extracts, for every value type, the (encoder primitive, settings operands) tuple each front-end (Event, Context, Array methods and every arm of the Fields type switch, pointer arms matched to their value arms) passes the user's value to, and requires the tuples to agree; A6 the integer appenders of the JSON and CBOR encoders widen the logged value without loss (necessary for 'integers exactly over their full 8-64 bit ranges'), also under 386 sizes in the thorough tier; JSONARR the slice appenders of internal/json emit '[', one element primitive per element separated by exactly one ',', and ']' with the same element primitive and settings as the scalar appender; ELEM the expression rendering one element of every json slice appender is, per TimeFieldFormat case, the expression the scalar sibling renders the value with (thin wrappers inlined, helper parameters bound to the constants at the delegation site); A1 no appender result is dropped."
 	r.NotDec = "Round-trip equality itself: float shortest-digit formatting and the 1e-6/1e21 switch, U+FFFD substitution, time/duration arithmetic, Hex/IP/MAC text forms — value-level, not decided statically."
 	r.Assume = []string{"strconv / time formatting is correct"}
 	p := r.Use("J")
@@ -15,6 +15,7 @@ func checkC02(r *Run) {
 	ruleErrorMarshalOnce(r, p)
 	ruleA6(r, p, []string{"internal/json", cborRel})
 	ruleJSONSliceAppenders(r, p)
+	ruleElemAgreement(r, p)
 	if r.Tier == "thorough" {
 		if p32 := r.Use("J32"); p32 != nil {
 			ruleA6(r, p32, []string{"internal/json", cborRel})
@@ -26,4 +27,5 @@ func checkC02(r *Run) {
 	r.Floor("A5", 150)
 	r.Floor("A6", 25)
 	r.Floor("JSONARR", 30)
+	r.Floor("ELEM", 15)
 }
